@@ -7,8 +7,9 @@ import time
 
 import z3
 
-Z3_TIMEOUT_MS = int(os.environ.get('VERIF_Z3_MS', '10000'))
-CVC5_TIMEOUT_MS = int(os.environ.get('VERIF_CVC5_MS', '30000'))
+# generous: queries take milliseconds to a second on an idle machine; the limit only matters when every core is busy
+Z3_TIMEOUT_MS = int(os.environ.get('VERIF_Z3_MS', '60000'))
+CVC5_TIMEOUT_MS = int(os.environ.get('VERIF_CVC5_MS', '120000'))
 
 
 def to_smt2(premises, goal, logic='ALL'):
@@ -122,7 +123,7 @@ def discharge(premises, goal, use_cvc5=True, z3_ms=None, both=False):
         pass
     for label, prem, g in tries:
         s0 = z3.Solver()
-        s0.set('timeout', 3000)
+        s0.set('timeout', 8000)
         for p in prem:
             s0.add(p)
         s0.add(z3.Not(g))
